@@ -483,6 +483,10 @@ structure Environ where
   langs : List LangRow
   pkgDir : String
   dirFiles : String → List TemplateFile
+  /-- every `*.dsdl` / `*.uavcan` below the given directories, as `ArgparseRunner._lookup_dsdl_files` enumerates them -/
+  dsdlBelow : List String → List String := fun _ => []
+  /-- `DSDL_INCLUDE_PATH`, split at `os.pathsep` -/
+  envIncludes : List String := []
 
 /-- `generate_support` as the runner tests it: `== "as-needed"`, `in ("always", "only")`, `!= "only"`.  Any other value
 behaves like `never`. -/
@@ -524,6 +528,14 @@ def langOf (env : Environ) (ns : Namespace) : Option LangRow :=
   | some .none, some xl => named "c" xl
   | _, _ => none
 
+/-- `main`: `extra_includes = args.lookup_dir or []`, then the sorted entries of `DSDL_INCLUDE_PATH`. -/
+def extraIncludes (env : Environ) (ns : Namespace) : Option (List String) :=
+  match ns.lookup "lookup_dir" with
+  | some .none => some env.envIncludes
+  | some (.list l) =>
+    (l.mapM fun | Scalar.str s => some s | Scalar.int _ => none).map (· ++ env.envIncludes)
+  | _ => none
+
 /-- The `Cli.Args` record `ArgparseRunner.__init__` works from.  `none`: the runner raises before it reaches a generator
 (unknown or missing target language, an experimental language without `--experimental-languages`, a list where a string is
 needed). -/
@@ -531,12 +543,13 @@ def toArgs (env : Environ) (ns : Namespace) : Option Args :=
   match langOf env ns, strOf (ns.lookup "outdir"), optStrOf (ns.lookup "output_extension"),
         optStrOf (ns.lookup "namespace_output_stem"), optStrOf (ns.lookup "templates"),
         optStrOf (ns.lookup "support_templates"), ns.lookup "generate_support",
-        ns.lookup "omit_serialization_support", ns.lookup "generate_namespace_types" with
-  | some row, some outdir, some ext, some stem, some tpl, some stpl, some gs, some om, some gnt =>
+        ns.lookup "omit_serialization_support", ns.lookup "generate_namespace_types", extraIncludes env ns with
+  | some row, some outdir, some ext, some stem, some tpl, some stpl, some gs, some om, some gnt, some incl =>
     some { lang := row, pkgDir := env.pkgDir, outdir := splitSlash outdir.toList, genSupport := genSupportOf gs,
            omitSer := truthy om, gnt := truthy gnt, extArg := ext, stemArg := stem,
-           templates := tpl.map env.dirFiles, supportTemplates := stpl.map env.dirFiles }
-  | _, _, _, _, _, _, _, _, _ => none
+           templates := tpl.map env.dirFiles, supportTemplates := stpl.map env.dirFiles,
+           lookupFiles := env.dsdlBelow incl }
+  | _, _, _, _, _, _, _, _, _, _ => none
 
 /-- `main` + `ArgparseRunner.__init__` + `run`, from the argument vector. -/
 inductive MainOut
